@@ -1,29 +1,28 @@
 #!/bin/bash
-# usage: confirm_seed.sh <worktree> <outdir with patch.diff + demo test> <demo path in repo> <pkg of demo (./x/y)> <test regex> <seed name>
+# usage: confirm_seed.sh <worktree> <patch.diff> <demo test file> <demo path in repo> <pkg (./x/y)> <test regex> <seed name>
 # Confirms in the scratch worktree: builds with the change, existing tests pass with it, demo fails with it and passes without.
-wt="$1"; out="$2"; demopath="$3"; pkg="$4"; re="$5"; name="$6"
+wt="$1"; patch="$2"; demo="$3"; demopath="$4"; pkg="$5"; re="$6"; name="$7"
 export GOFLAGS=-mod=mod GOPROXY=off GOSUMDB=off GOTOOLCHAIN=local
 log=/tmp/confirm_$name.log; : > $log
 cd "$wt" || exit 2
 git checkout -q -- . ; git clean -fdq -e out
 find . -name zz_verif_contracts.go -delete
-demo=$(ls "$out"/*_test.go | head -1)
-# clean tree: demo passes
 cp "$demo" "$demopath"
-r_clean=$(go test -vet=off -count=1 -timeout 120s -run "$re" "$pkg" 2>&1 | tail -1)
+r_clean=$(go test -vet=off -count=1 -timeout 120s -run "$re" "$pkg" 2>&1 | grep -E "^(ok|FAIL|---|panic)" | head -3 | tr '\n' ' ')
 echo "demo on clean tree: $r_clean" >> $log
 rm -f "$demopath"
-# mutated
-git apply "$out/patch.diff" || { echo "apply failed" >> $log; exit 3; }
+git apply "$patch" || { echo "apply failed" >> $log; exit 3; }
 b=$(go build ./... 2>&1 | tail -3); echo "build with change: ${b:-ok}" >> $log
 cp "$demo" "$demopath"
-r_mut=$(go test -vet=off -count=1 -timeout 120s -run "$re" "$pkg" 2>&1 | tail -3 | tr '\n' ' ')
+r_mut=$(go test -vet=off -count=1 -timeout 120s -run "$re" "$pkg" 2>&1 | grep -E "^(ok|FAIL|--- FAIL|panic)" | head -3 | tr '\n' ' ')
 echo "demo with change: $r_mut" >> $log
 rm -f "$demopath"
-u=$(go test -vet=off -count=1 -timeout 15m $(go list ./... | grep -v "/tests$\|/benchmarks\|/demo") 2>&1 | grep -E "^(FAIL|---|panic)" | head -5)
+u=$(go test -vet=off -count=1 -timeout 15m $(go list ./... | grep -v "/tests$\|/benchmarks\|/demo") 2>&1 | grep -E "^(FAIL|---|panic)" | head -5 | tr '\n' ' ')
 echo "unit tests with change: ${u:-all ok}" >> $log
-w=$(timeout 1500 go test -vet=off -count=1 -timeout 20m ./tests/... 2>&1 | grep -E "^(ok|FAIL|--- FAIL|panic)" | head -5 | tr '\n' ' ')
-echo "wire tests with change: $w" >> $log
+for attempt in 1 2 3; do
+  w=$(GOMAXPROCS=4 timeout 600 go test -vet=off -count=1 -timeout 9m ./tests/... 2>&1 | grep -E "^(ok|FAIL|--- FAIL|panic)" | head -4 | tr '\n' ' ')
+  echo "wire tests with change (attempt $attempt): ${w:-timeout/hang}" >> $log
+  case "$w" in ok*) break;; esac
+done
 git checkout -q -- . ; git clean -fdq -e out
 find . -name zz_verif_contracts.go -delete
-cat $log
